@@ -432,7 +432,8 @@ def eigh(a):
 
 @eigh.register(FermionicArray)
 def eigh_fermionic(a):
-    eigenvalues, eigenvectors = eigh.dispatch(AbelianArray)(a)
+    # need actual block values, not lazy phases
+    eigenvalues, eigenvectors = eigh.dispatch(AbelianArray)(a.phase_sync())
 
     if not a.indices[1].dual:
         symm = a.symmetry
@@ -483,7 +484,8 @@ def solve(a, b):
 
 @solve.register(FermionicArray)
 def solve_fermionic(a, b):
-    x = solve.dispatch(AbelianArray)(a, b)
+    # need actual block values, not lazy phases
+    x = solve.dispatch(AbelianArray)(a.phase_sync(), b.phase_sync())
 
     if x.indices[0].dual:
         # inner index is like |x><x| so introduce a phase flip
